@@ -265,14 +265,14 @@ func Run(s *Session) (out SessOutcome) {
 				}
 				carried := ok
 				text := carriedText(rq)
-				if sn := leafSchema[p]; sn != nil && sn.Type == "enum" && numRe.MatchString(text) {
-					// an enumeration may be given by value
-					for _, e := range sn.Enums {
-						if e == nv {
-							nv = "0"
-						}
-					}
+				if sn := leafSchema[p]; sn != nil && (sn.Type == "enum" || sn.Type == "bits") && numRe.MatchString(text) {
+					// an enumeration may be given by value, bits by their positions
+					nv = "0"
 				}
+				// XML normalises line ends; compare modulo white space
+				ws := strings.NewReplacer("\r", " ", "\n", " ", "\t", " ")
+				nv = ws.Replace(nv)
+				text = ws.Replace(text)
 				for _, part := range strings.Split(nv, "\x00") {
 					if !strings.Contains(text, part) && !numberCarried(part, text) {
 						carried = false
